@@ -148,6 +148,35 @@ def overlapping(ctx):
         c.time = old
 
 
+def p521_public_mode(ctx):
+    """ECDH_P521 public-key mode: 66 random octets are rarely a valid P-521 scalar, so most ephemeral draws are refused (ValueError);
+    whatever IS emitted must carry pairwise distinct ephemeral public keys — a fallback that folds refused draws into a small range
+    would repeat within a few dozen calls"""
+    import struct
+    from cryptography.hazmat.primitives.asymmetric import ec
+    pn = ec.generate_private_key(ec.SECP521R1()).public_key().public_numbers()
+    peer = b"ECK5" + struct.pack("<I", 66) + pn.x.to_bytes(66, "big") + pn.y.to_bytes(66, "big")
+    env = gen.make_env(flags=1, secret_algorithm="ECDH_P521", secret_parameters=b"", private_key_length=521, public_key_length=1042, l1_key=b"", l2_key=peer,
+                       kdf_parameters=gen.kdf_params("SHA512"))
+    seen, refused = {}, 0
+    for i in range(400 if ctx.thorough else 160):
+        try:
+            kek, kid = env.new_kek()
+        except ValueError:
+            refused += 1
+            continue
+        except Exception as e:  # noqa
+            ctx.violation("new_kek escapes with an unexpected error for an ECDH_P521 group key", {"call": i}, canon_exc(e), "a KEK or ValueError")
+            return
+        if kid.key_info in seen or kek in seen.values():
+            ctx.violation("ki repeated across protect calls", {"mode": "public", "alg": "ECDH_P521", "calls": [list(seen).index(kid.key_info) if kid.key_info in seen else -1, i],
+                                                                "scenario": "p521_public_mode"}, "the same ephemeral public key / KEK twice", "pairwise distinct")
+            return
+        seen[kid.key_info] = kek
+    ctx.count("p521_public_mode:emitted", len(seen))
+    ctx.count("p521_public_mode:refused", refused)
+
+
 def run(ctx):
     prelude.validate(ctx)
     cases = []
@@ -168,6 +197,7 @@ def run(ctx):
         total += history(ctx, True, mode, 400 if ctx.thorough else 60)
     ctx.count("real_urandom_protects", total)
     overlapping(ctx)
+    p521_public_mode(ctx)
 
 
 def search(ctx, broken, disagreements):
